@@ -316,3 +316,6 @@ Qed.
 Lemma bce_logits_linear g x y :
   wrap_binary_cross_entropy_with_logits_grad_y_pred g x y = g * wrap_binary_cross_entropy_with_logits_grad_y_pred 1 x y.
 Proof. rewrite (bce_logits_backward_eq g), (bce_logits_backward_eq 1). ring. Qed.
+
+Lemma selu_scale_value : wrap_selu_scale = 10507009873554804934193349852946 / 10000000000000000000000000000000.
+Proof. unfold wrap_selu_scale. lra. Qed.
